@@ -119,10 +119,14 @@ func blameCorrespondenceEc(r *Run, rng *rand.Rand, thorough bool) {
 					bytesListHex(c.GetDlnproof_1()), bytesListHex(c.GetDlnproof_2())))
 			}
 			goRes := "ok pass"
-			if nd.Err != nil && nd.Err.Round() == 2 {
+			refused := refusedBeforeStore(nd.Err) // e.g. a round-2 message failing ValidateBasic while the party is in round 2
+			if nd.Err != nil && nd.Err.Round() == 2 && !refused {
 				goRes = "ok fail culprits=" + culpritSet(net, nd.Err)
 			} else if nd.Err != nil && nd.Err.Round() < 2 {
 				continue
+			}
+			if refused && nd.Err.Round() > 2 {
+				refused = false // refused in a later round: rounds 2 and 3 were passed and are judged below
 			}
 			lean := r.model.Call("ec_kg_round2", fmt.Sprint(i), strings.Join(msgs, ";"))
 			line := fmt.Sprintf("ec_kg_round2 %d … (%s.%s %s by party %d)", i, t.typ, t.field, t.kind, dev)
@@ -136,7 +140,7 @@ func blameCorrespondenceEc(r *Run, rng *rand.Rand, thorough bool) {
 			if cmp != goRes {
 				r.fail(Failure{Kind: "diff", Key: "blame/ecdsa-keygen-round2/" + t.typ + "." + t.field + "/" + t.kind, Op: line + " args: " + strings.Join(msgs, ";")[:min(400, len(strings.Join(msgs, ";")))], Go: goRes, Lean: lean})
 			}
-			if goRes != "ok pass" {
+			if goRes != "ok pass" || refused {
 				continue
 			}
 			// --- round 3 ---
@@ -159,7 +163,7 @@ func blameCorrespondenceEc(r *Run, rng *rand.Rand, thorough bool) {
 			}
 			go3 := "ok culprits=_"
 			if nd.Err != nil {
-				if nd.Err.Round() != 3 {
+				if nd.Err.Round() != 3 || refusedBeforeStore(nd.Err) {
 					continue
 				}
 				go3 = "ok culprits=" + culpritSet(net, nd.Err)
